@@ -205,6 +205,9 @@ func (p *MapProvider) Provide(path string, digest []byte) (string, error) {
 type tracingProvider struct {
 	inner core.Provider
 	t     *Tracer
+	// rootName is the leaf name the filesystem operations use for the root
+	// path "" (the root is operated on through its parent directory).
+	rootName string
 }
 
 func (p *tracingProvider) Provide(path string, digest []byte) (string, error) {
@@ -215,7 +218,11 @@ func (p *tracingProvider) Provide(path string, digest []byte) (string, error) {
 			exists = true
 		}
 	}
-	p.t.Events = append(p.t.Events, Event{Op: "provide", Name: Leaf(path), Aux: exists})
+	name := Leaf(path)
+	if path == "" {
+		name = p.rootName
+	}
+	p.t.Events = append(p.t.Events, Event{Op: "provide", Name: name, Aux: exists})
 	return sp, err
 }
 
@@ -444,6 +451,21 @@ func Classify(m string) string {
 	return "unclassified"
 }
 
+// canonProblems replaces the random names of cross-device temporaries in
+// problem paths by their canonical names (a temporary that could not be
+// removed can show up later as unknown content).
+func canonProblems(ps []*core.Problem, c *Canon) []*core.Problem {
+	out := make([]*core.Problem, len(ps))
+	for i, p := range ps {
+		parts := strings.Split(p.Path, "/")
+		for j, n := range parts {
+			parts[j] = c.TmpName(n)
+		}
+		out[i] = &core.Problem{Path: strings.Join(parts, "/"), Error: p.Error}
+	}
+	return out
+}
+
 // EncProblems renders problems by path and class, sorted.
 func EncProblems(ps []*core.Problem) string {
 	if len(ps) == 0 {
@@ -593,7 +615,7 @@ func Run(c *Case) (*Outcome, error) {
 	tracer.Cancel = cancel
 	filesystem.VerifSetFaultHook(tracer.hook)
 	o.Results, o.Problems, o.Missing = core.Transition(ctx, c.Root, c.Plan, c.Cache, c.Cfg.slMode(),
-		filesystem.Mode(c.Cfg.FileMode), filesystem.Mode(c.Cfg.DirMode), nil, false, &tracingProvider{c.Provider, tracer})
+		filesystem.Mode(c.Cfg.FileMode), filesystem.Mode(c.Cfg.DirMode), nil, false, &tracingProvider{c.Provider, tracer, c.Cfg.RootName})
 	filesystem.VerifSetFaultHook(nil)
 	o.Events = tracer.Events
 	// With the staging area on another device, the first rename of every
@@ -668,7 +690,7 @@ func Run(c *Case) (*Outcome, error) {
 	}
 	var silent []string
 	for _, p := range o.Problems {
-		n := Leaf(p.Path)
+		n := c.Canon.TmpName(Leaf(p.Path))
 		if p.Path != "" && !seen[n] {
 			seen[n] = true
 			silent = append(silent, n)
@@ -728,7 +750,7 @@ func Run(c *Case) (*Outcome, error) {
 	if len(remaining) > 0 {
 		rem = strings.Join(remaining, ",")
 	}
-	o.Impl = "res=" + resField + " prob=" + EncProblems(o.Problems) + " miss=" + miss + " fs=" + Enc(o.F2) +
+	o.Impl = "res=" + resField + " prob=" + EncProblems(canonProblems(o.Problems, c.Canon)) + " miss=" + miss + " fs=" + Enc(o.F2) +
 		" scan=" + scanField + " staged=" + rem
 	return o, nil
 }
